@@ -12,4 +12,7 @@ PINS = {
 
 
 def generate():
-    return modelpins.generate_for("C01", PINS)
+    text, changed = modelpins.generate_for("C01", PINS)
+    if changed:
+        print("PIN-MISMATCH PinsC01: %s changed; the hand-written model of C01 mirrors the pinned text" % ", ".join(changed))
+    return text
